@@ -29,6 +29,7 @@ VARIABLES
   ended,      \* tokens of sessions that have ended in this incarnation
   stale,      \* named slack: datapath entries a listed known finding is allowed to leave behind
   relabel,    \* named slack: sessions that had an accepted modification creating or updating QERs (F-QER-RELABEL)
+  peerTs,     \* C12: [peer -> Recovery Time Stamp the agent showed this peer in the current association]
   ddnLast,    \* C13: [UP SEID token -> time (ms) of the last forwarded downlink data report]
   srrSeqs,    \* C13: sequence numbers of the Session Report Requests seen so far, per peer
   tainted,    \* C01: UP SEID tokens whose rules are unknown after a mutated message (their table entries are not judged)
@@ -38,7 +39,7 @@ VARIABLES
   snap,       \* guarded state snapshot taken with the last consumed line ([has |-> FALSE] if none)
   chk,        \* verdicts of the per-step checks of the last consumed line (record of booleans)
   last        \* summary of the last consumed line: [ev, kind, accepted, u]
-vars == <<l, alive, cfg, assoc, pfd, sess, ipHeld, teidHeld, ended, stale, relabel, ddnLast, srrSeqs, tainted, used, tables, cmds, snap, chk, last>>
+vars == <<l, alive, cfg, assoc, pfd, sess, ipHeld, teidHeld, ended, stale, relabel, peerTs, ddnLast, srrSeqs, tainted, used, tables, cmds, snap, chk, last>>
 
 Dev(name) == name \in KnownDevs
 
@@ -70,7 +71,7 @@ Accepted(e) == Answered(e) /\ Main(e).cause = 1
 \* all checks a step can make; TRUE unless the step sets them
 ChkOK == [one |-> TRUE, type |-> TRUE, seq |-> TRUE, hdrSeid |-> TRUE, cause |-> TRUE, shape |-> TRUE, created |-> TRUE,
           mustReject |-> TRUE, writesNothing |-> TRUE, seidLegal |-> TRUE, teidLegal |-> TRUE, ipLegal |-> TRUE,
-          ipRefusal |-> TRUE, teidProgrammed |-> TRUE, addressed |-> TRUE, mustAccept |-> TRUE, srrDue |-> TRUE, srrNone |-> TRUE, srrRate |-> TRUE, srrShape |-> TRUE, startEmpty |-> TRUE, envelope |-> TRUE, markers |-> TRUE,
+          ipRefusal |-> TRUE, teidProgrammed |-> TRUE, addressed |-> TRUE, mustAccept |-> TRUE, srrDue |-> TRUE, srrNone |-> TRUE, srrRate |-> TRUE, srrShape |-> TRUE, tsConst |-> TRUE, assocIffConn |-> TRUE, features |-> TRUE, rtCount |-> TRUE, rtSpacing |-> TRUE, rtOutcome |-> TRUE, postponed |-> TRUE, startEmpty |-> TRUE, envelope |-> TRUE, markers |-> TRUE,
           pfdKept |-> TRUE, hbTs |-> TRUE]
 
 \* C02 checks common to every request kind
@@ -116,7 +117,7 @@ UnknownSess(p, u) == u \notin DOMAIN sess \/ sess[u].peer # p
 (* steps *)
 Init ==
   /\ l = 1 /\ alive = FALSE /\ cfg = [dp |-> "none"] /\ assoc = EmptyFn /\ pfd = EmptyFn /\ sess = EmptyFn
-  /\ ipHeld = EmptyFn /\ teidHeld = EmptyFn /\ ended = {} /\ stale = {} /\ relabel = {} /\ ddnLast = EmptyFn /\ srrSeqs = EmptyFn /\ tainted = {} /\ used = {}
+  /\ ipHeld = EmptyFn /\ teidHeld = EmptyFn /\ ended = {} /\ stale = {} /\ relabel = {} /\ peerTs = EmptyFn /\ ddnLast = EmptyFn /\ srrSeqs = EmptyFn /\ tainted = {} /\ used = {}
   /\ tables = EmptyTables /\ cmds = 0 /\ snap = NoSnap
   /\ chk = ChkOK /\ last = [ev |-> "init", kind |-> "-", accepted |-> FALSE, u |-> "-"]
   /\ InitHw /\ TLCSet(2, {})
@@ -129,7 +130,7 @@ StartEv ==
   /\ e.ev = "start"
   /\ alive' = TRUE /\ cfg' = e.cfg
   /\ assoc' = EmptyFn /\ pfd' = EmptyFn /\ sess' = EmptyFn /\ ipHeld' = EmptyFn /\ teidHeld' = EmptyFn
-  /\ ended' = {} /\ stale' = {} /\ relabel' = {} /\ ddnLast' = EmptyFn /\ srrSeqs' = EmptyFn
+  /\ ended' = {} /\ stale' = {} /\ relabel' = {} /\ ddnLast' = EmptyFn /\ srrSeqs' = EmptyFn /\ peerTs' = EmptyFn
   /\ tables' = ToTables(e.dp) /\ cmds' = e.cmds /\ snap' = SnapOf(e)
   /\ chk' = [ChkOK EXCEPT !.startEmpty = (ToTables(e.dp) = EmptyTables)]
   /\ last' = [ev |-> "start", kind |-> "-", accepted |-> FALSE, u |-> "-"]
@@ -152,7 +153,9 @@ HbEv ==
   /\ e.ev = "req" /\ e.kind = "hb"
   /\ UNCHANGED <<alive, cfg, assoc, pfd, sess, ipHeld, teidHeld, ended, stale, relabel>>
   /\ Obs(e)
-  /\ chk' = [CommonChk(e) EXCEPT !.hbTs = (Answered(e) => Main(e).hasTs)]
+  /\ chk' = [CommonChk(e) EXCEPT !.hbTs = (Answered(e) => Main(e).hasTs),
+                                 !.tsConst = ((Answered(e) /\ e.peer \in DOMAIN peerTs) => Main(e).ts = peerTs[e.peer])]
+  /\ peerTs' = IF Answered(e) /\ e.peer \notin DOMAIN peerTs THEN Override(peerTs, [x \in {e.peer} |-> Main(e).ts]) ELSE peerTs
   /\ last' = [ev |-> "req", kind |-> "hb", accepted |-> Answered(e), u |-> "-"]
   /\ Advance
 
@@ -162,7 +165,19 @@ AssocEv ==
   /\ assoc' = IF Accepted(e) THEN Override(assoc, [x \in {p} |-> [node |-> e.req.node]]) ELSE assoc
   /\ UNCHANGED <<alive, cfg, pfd, sess, ipHeld, teidHeld, ended, stale, relabel>>
   /\ Obs(e)
-  /\ chk' = [CommonChk(e) EXCEPT !.shape = (Answered(e) => Main(e).node = cfg.node /\ Main(e).hasTs)]
+  /\ chk' = [CommonChk(e) EXCEPT
+                !.shape = (Answered(e) => Main(e).node = cfg.node /\ Main(e).hasTs),
+                !.tsConst = ((Answered(e) /\ p \in DOMAIN peerTs) => Main(e).ts = peerTs[p]),
+                \* accepted exactly when the datapath was connected at that moment (the agent's view, read from the guarded
+                \* snapshot immediately before the request; "unknown" when no snapshot was taken)
+                !.assocIffConn = ((Answered(e) /\ "connBefore" \in DOMAIN e /\ e.connBefore # "unknown") => (Accepted(e) <=> e.connBefore = "yes")),
+                \* advertised UP features: F-TEID allocation always, UE IP allocation and end markers iff enabled
+                !.features = (Answered(e) =>
+                                /\ Len(Main(e).features) >= 3
+                                /\ HasBit(Main(e).features[1], 16)
+                                /\ (HasBit(Main(e).features[3], 4) <=> cfg.ueAlloc)
+                                /\ (HasBit(Main(e).features[2], 1) <=> cfg.endMarker))]
+  /\ peerTs' = IF Answered(e) /\ p \notin DOMAIN peerTs THEN Override(peerTs, [x \in {p} |-> Main(e).ts]) ELSE peerTs
   /\ last' = [ev |-> "req", kind |-> "assoc", accepted |-> Accepted(e), u |-> "-"]
   /\ Advance
 
@@ -186,6 +201,7 @@ ReleaseEv ==
   /\ Obs(e)
   /\ stale' = IF Answered(e) THEN stale \cup RelabelResidue(SessOfPeer(p), ToTables(e.dp)) ELSE stale
   /\ relabel' = IF Answered(e) THEN relabel \ SessOfPeer(p) ELSE relabel
+  /\ peerTs' = IF Answered(e) THEN Without(peerTs, {p}) ELSE peerTs
   /\ chk' = CommonChk(e)
   /\ last' = [ev |-> "req", kind |-> "release", accepted |-> Answered(e), u |-> "-"]
   /\ Advance
@@ -199,6 +215,7 @@ LostEv ==
   /\ Obs(e)
   /\ stale' = stale \cup RelabelResidue(SessOfPeer(p), ToTables(e.dp))
   /\ relabel' = relabel \ SessOfPeer(p)
+  /\ peerTs' = Without(peerTs, {p})
   /\ chk' = ChkOK
   /\ last' = [ev |-> "lost", kind |-> "-", accepted |-> TRUE, u |-> "-"]
   /\ Advance
@@ -409,6 +426,32 @@ EndEv ==
   /\ chk' = ChkOK /\ last' = [ev |-> "end", kind |-> "-", accepted |-> FALSE, u |-> "-"]
   /\ Advance
 
+\* C12: one agent-originated request (Heartbeat Request, Association Setup Request) as the scripted peer saw it:
+\* e.tx = arrival times (ms) of the transmissions with that sequence number, e.n = max_req_retries, e.tMs = response
+\* time-out, e.mode = what the peer did: "kth" (answered the e.k-th transmission only), "none", "dup" (answered the
+\* e.k-th twice), "wrongseq" (answered every transmission with another sequence number, the e.k-th also correctly),
+\* e.dead = the association was torn down afterwards
+RetransEv ==
+  LET e == Trace[l]  cnt == Len(e.tx) IN
+  /\ e.ev = "retrans"
+  /\ UNCHANGED <<alive, cfg, assoc, pfd, sess, ipHeld, teidHeld, ended, stale, relabel, peerTs, tables, cmds, snap>>
+  /\ chk' = [ChkOK EXCEPT
+       !.rtCount = (cnt >= 1 /\ cnt <= 1 + e.n),
+       \* spaced by the response time-out (lower bound, 20 % tolerance)
+       !.rtSpacing = (\A i \in 1..(cnt - 1) : 10 * (e.tx[i + 1] - e.tx[i]) >= 8 * e.tMs),
+       \* it stops as soon as a response with that sequence number arrives; dead only when every transmission went unanswered
+       !.rtOutcome = (IF e.mode = "none" THEN cnt = 1 + e.n /\ e.dead ELSE cnt = e.k /\ ~e.dead)]
+  /\ last' = [ev |-> "retrans", kind |-> e.mode, accepted |-> FALSE, u |-> "-"]
+  /\ Advance
+\* C12: a Heartbeat Request of the peer in the middle of the agent's heartbeat interval postpones the agent's next one
+PostponeEv ==
+  LET e == Trace[l] IN
+  /\ e.ev = "postpone"
+  /\ UNCHANGED <<alive, cfg, assoc, pfd, sess, ipHeld, teidHeld, ended, stale, relabel, peerTs, tables, cmds, snap>>
+  /\ chk' = [ChkOK EXCEPT !.postponed = (10 * (e.nextAgentHb - e.peerHb) >= 8 * e.intervalMs)]
+  /\ last' = [ev |-> "postpone", kind |-> "-", accepted |-> FALSE, u |-> "-"]
+  /\ Advance
+
 \* C01: a mutated or garbage datagram was sent by peer e.peer.  Whatever it did to that peer's association and
 \* sessions is not constrained: they become tainted (their table entries are no longer judged) and the peer is
 \* treated as not associated.  The agent must survive and answer at most once.
@@ -446,10 +489,13 @@ DiedEv ==
 
 NotInject == UNCHANGED tainted
 NotReport == UNCHANGED <<ddnLast, srrSeqs>>
+NotTs == UNCHANGED peerTs
 Next == /\ l <= Len(Trace)
-        /\ \/ NotReport /\ (InjectEv \/ CleanupEv \/ DiedEv)
-           \/ NotInject /\ (ReportEv \/ StartEv)
-           \/ NotInject /\ NotReport /\ (EndEv \/ KillEv \/ HbEv \/ AssocEv \/ ReleaseEv \/ LostEv \/ PfdEv \/ EstabEv \/ ModEv \/ DelEv \/ InjectRespEv)
+        /\ \/ NotReport /\ NotTs /\ (InjectEv \/ CleanupEv \/ DiedEv)
+           \/ NotInject /\ NotTs /\ ReportEv
+           \/ NotInject /\ StartEv
+           \/ NotInject /\ NotReport /\ (HbEv \/ AssocEv \/ ReleaseEv \/ LostEv \/ RetransEv \/ PostponeEv)
+           \/ NotInject /\ NotReport /\ NotTs /\ (EndEv \/ KillEv \/ PfdEv \/ EstabEv \/ ModEv \/ DelEv \/ InjectRespEv)
         /\ used' = used \cup UsedNow \cup (IF Trace[l].ev = "died" THEN {"crash:" \o Trace[l].site} ELSE {})      \* the state BEFORE this step (every trace ends with an "end" line)
         /\ TLCSet(2, used')
 Spec == Init /\ [][Next]_vars
@@ -531,6 +577,16 @@ C09_SessionQerSound ==
              /\ QerKeysOK(tables.appQer, tables.sessQer, u, sess[u], sq)
              /\ SoundSessQer(sess[u], sq)
        \/ u \in Relaxed
+
+\* C12
+C12_AtMostOnePlusNTransmissions == chk.rtCount
+C12_SpacedByResponseTimeout == chk.rtSpacing
+C12_StopsOnResponseDeadOnlyWhenAllUnanswered == chk.rtOutcome
+C12_PeerHeartbeatPostponesOwn == chk.postponed
+C12_RecoveryTimeStampConstant == chk.tsConst
+C12_AssociationAcceptedIffConnected == chk.assocIffConn
+C12_FeaturesMatchConfiguration == chk.features
+C12_HeartbeatAnsweredAnyTime == (last.ev = "req" /\ last.kind = "hb") => chk.one /\ chk.type /\ chk.hbTs
 
 \* C13
 C13_ReportForwardedWhenDue == chk.srrDue
